@@ -37,22 +37,22 @@ def par_map(jobs):
     return res
 
 
-def judge_chunks(run, wd, recs, tag, nchunks, overlap=0, timeout=3000):
-    """split recs into chunks, judge them concurrently; returns [(global_line, rec)] of rejected records"""
-    n = len(recs)
+def judge_chunks(run, wd, lines, tag, nchunks, overlap=0, timeout=3000):
+    """split the ndjson lines into chunks, judge them concurrently; returns [(global_line, rec)] of rejected records"""
+    n = len(lines)
     if n == 0:
         return []
     size = max(1, (n + nchunks - 1) // nchunks)
     jobs, offs = [], []
     for c in range(0, n, size):
         lo = max(0, c - overlap)
-        part = recs[lo:c + size]
         p = os.path.join(wd, "%s_%d.ndjson" % (tag, len(offs)))
-        write_ndjson(p, part)
+        with open(p, "w") as f:
+            f.write("\n".join(lines[lo:c + size]) + "\n")
         cfg = os.path.join(wd, "tr_%s_%d.cfg" % (tag, len(offs)))
         open(cfg, "w").write(TRACE_CFG)
         offs.append(lo)
-        jobs.append((len(offs) - 1, (lambda p=p, cfg=cfg: validate_trace(D, "Trace_RankStats", p, cfg=cfg, timeout=timeout, xmx="3g"))))
+        jobs.append((len(offs) - 1, (lambda p=p, cfg=cfg: validate_trace(D, "Trace_RankStats", p, cfg=cfg, timeout=timeout, xmx="4g"))))
     res = par_map(jobs)
     out = []
     for i in sorted(res):
@@ -63,6 +63,15 @@ def judge_chunks(run, wd, recs, tag, nchunks, overlap=0, timeout=3000):
                 raise vlib.ToolError("unexpected judge output: %s" % json.dumps(rj)[:600])
             out.append((offs[i] + rj["line"], rj["rec"]))
     return out
+
+
+def read_lines(path):
+    with open(path) as f:
+        return [ln for ln in f.read().split("\n") if ln.strip()]
+
+
+def dumps(recs):
+    return [json.dumps(r, separators=(",", ":")) for r in recs]
 
 
 def exp_index(rcases):
@@ -171,35 +180,42 @@ def check(run):
     vlib.run_bin("h_stats", ["bh", f_b, t_b], env=env, timeout=600)
     nlop, nlong = (400, 400) if thorough else (40, 60)
     vlib.run_bin("h_stats", ["random", t_x, nlop, nlong], env=env, timeout=900)
-    rrecs, brecs, xrecs = read_ndjson(t_r), read_ndjson(t_b), read_ndjson(t_x)
+    rlines, blines, xlines = read_lines(t_r), read_lines(t_b), read_lines(t_x)
+    # only the sample records are parsed here (for the ordering check); everything else goes to TLC as text
+    seqs = [json.loads(ln) for ln in rlines if '"op":"seq"' in ln and "signedzero" not in ln]
+    seqs = [{"op": "seq", "x": r["x"], "pp": r["pp"][:1]} for r in seqs]
     exp = exp_index(rcases)
-    mk, pt = ord_records(rrecs, exp)
+    mk, pt = ord_records(seqs, exp)
     nchunks = 10 if thorough else 6
     rej = par_map([
-        ("ranks", lambda: judge_chunks(run, wd, rrecs, "ranks", nchunks)),
-        ("rest", lambda: judge_chunks(run, wd, brecs + xrecs, "bhrand", 2)),
-        ("ord", lambda: judge_chunks(run, wd, mk + pt, "ord", 2 if not thorough else 4, overlap=1)),
+        ("ranks", lambda: judge_chunks(run, wd, rlines, "ranks", nchunks)),
+        ("rest", lambda: judge_chunks(run, wd, blines + xlines, "bhrand", 2)),
+        ("ord", lambda: judge_chunks(run, wd, dumps(mk + pt), "ord", 2 if not thorough else 4, overlap=1)),
     ])
-    total = len(rrecs) + len(brecs) + len(xrecs) + len(mk) + len(pt)
+    total = len(rlines) + len(blines) + len(xlines) + len(mk) + len(pt)
     run.cov["traces_validated_against_impl"] += total
     run.cov["evaluations"] += total
+    per_key = {}
     for part in ("ranks", "rest", "ord"):
         for line, rec in rej[part]:
             key = "stats:" + classify(rec, exp)
+            per_key[key] = per_key.get(key, 0) + 1
+            if per_key[key] > 5:        # a few replay files per failing quantity are enough
+                continue
             run.violation(key, "record rejected by RankStats (%s line %d): %s" % (part, line, json.dumps(rec)[:400]),
                           {"part": part, "record": rec, "expected_by_generator": exp.get(json.dumps(rec.get("x")))})
+    run.cov["rejected_records_by_key"] = per_key
     # vacuity: the interesting regions were reached
-    seqs = [r for r in rrecs if r.get("op") == "seq"]
     tied = sum(1 for r in seqs if len(set(r["x"])) < len(r["x"]))
     run.cov["weak_orders_with_ties"] = tied
     run.cov["mk_no_evidence_cases"] = sum(1 for r in seqs if r["pp"][0][2:4] == [1000000000, 0])
-    run.cov["signed_zero_probe_records"] = sum(1 for r in rrecs if r.get("tag") == "signedzero")
+    run.cov["signed_zero_probe_records"] = sum(1 for ln in rlines if "signedzero" in ln)
     run.cov["bh_cases_family_larger_than_tested"] = sum(1 for c in bcases if c["m"] > len(c["p"]))
     run.cov["bh_cases_expected_panic"] = sum(1 for c in bcases if c["m"] < len(c["p"]))
     run.cov["distinct_ord_p_values"] = {"mk": len({tuple(r["p"]) for r in mk}), "pettitt": len({tuple(r["p"]) for r in pt})}
     run.sample({"stimulus_with_expected": rcases[len(rcases) // 2]})
-    run.sample(next(r for r in rrecs if r.get("op") == "split" and len(r["x"]) == maxn))
-    run.sample(brecs[len(brecs) // 2])
+    run.sample(json.loads(next(ln for ln in reversed(rlines) if '"op":"split"' in ln and "signedzero" not in ln)))
+    run.sample(json.loads(blines[len(blines) // 2]))
     run.cov["distinct_nontrivial"] = len(rcases) + nsplits + len(bcases)
     run.cov["rule"] = ("distinct = TLC-enumerated inputs: %d weak orders of 0..%d points (each under 6 strictly increasing embeddings incl. "
                        "1e300-scale, subnormal, negative, 1e15-offset, and 3 affine maps for Theil-Sen/median) + %d (weak order, split) "
